@@ -334,3 +334,29 @@ def reuse_history_problems():
             if got != want:
                 out.append((sql, f'planned on a planner that planned {seq[:i]} before: {str(got)[:200]}; planned alone: {str(want)[:200]}'))
     return out
+
+
+def all_fetch_steps(steps):
+    """fetch steps of a plan, including those nested in MultipleSteps / map-reduce containers"""
+    for s_ in steps:
+        if type(s_).__name__ == 'FetchDataframeStep':
+            yield s_
+        sub = getattr(s_, 'steps', None) if type(s_).__name__ == 'MultipleSteps' else (getattr(s_, 'step', None) if type(s_).__name__ == 'MapReduceStep' else None)
+        if sub is not None:
+            yield from all_fetch_steps(sub if isinstance(sub, list) else [sub])
+
+
+def unstripped_qualifiers(plan, known_dbs=()):
+    """identifiers of pushed queries that still carry the name of the integration the query is sent to: the integration does not know itself by that name
+    (`SELECT int1.t.a FROM int1.t` sent to int1).  -> list of (integration, identifier text, query text)"""
+    from mindsdb_sql.parser import ast
+    from . import corpus
+    out = []
+    for st in all_fetch_steps(plan.steps):
+        if st.query is None or not isinstance(st.query, ast.ASTNode):
+            continue
+        me = str(st.integration).lower()
+        for _p, n in corpus.walk_nodes(st.query):
+            if isinstance(n, ast.Identifier) and len(n.parts) > 1 and isinstance(n.parts[0], str) and n.parts[0].lower() == me:
+                out.append((st.integration, n.to_string(), str(st.query)))
+    return out
